@@ -18,7 +18,7 @@ is process-global); a child that dies or hangs is a recorded event.
                       sends are captured as raw bytes and decoded by the table interpreter, types it expects
                       are encoded by the interpreter and compared at the caller / the resource manager;
                       validated by WireLayout_Tcp_Trace.tla (EXTENDS WireLayout)
-  C14  tcp-rpc        Rpc_Gen schedules for 1 and 2 callers and a seeded fifth of the 3-caller ones, replies
+  C14  tcp-rpc        Rpc_Gen schedules for 1, 2 and 3 callers (all 1724), replies
                       reordered / duplicated / dropped / late, coordinator requests reusing a pending id,
                       connection loss by RST; validated by the unchanged Rpc_Trace.tla
   C19  tcp-reconnect  Sessions_GenRcT (loss while idle / request in flight / between phase one and two, once
@@ -26,6 +26,12 @@ is process-global); a child that dies or hangs is a recorded event.
                       resource (proxy over memsql) and a TCC resource; the connection is dropped with RST and
                       getty reconnects by itself; validated by the unchanged Sessions_Trace.tla
 """
+
+TCP_TB = ["the TCP coordinator stand-in harness/tctcp (thorough tier, legs tcp-*): its own frame reader/writer "
+          "(written from the v1 frame layout), the interpreter of the layout table exported from WireLayout.tla as "
+          "body codec, the name mapping between table fields and the Go message structs (tctcp/model.go), the "
+          "reuse of harness/tc's coordinator model for default replies, and the real getty session's own package "
+          "counter (session.Stat) as the observation of 'the dispatch of a message has returned'"]
 
 _TABLE = ("WireLayout_TcpGen", "WireLayout_GenTable.cfg")   # the layout table alone (tctcp's body codec)
 
